@@ -165,6 +165,13 @@ def str_method(I, s, name):
     def m_replace(I, args, kw):
         if s.py is not None and all(isinstance(a, SStr) and a.py is not None for a in args):
             return SStr(s.py.replace(*[a.py for a in args]))
+        if s.opaque:
+            return OPAQUE
+        if I.P.ghost.get("abstract_text"):
+            # some text derived from s: an unconstrained symbol (only used for captions)
+            from .engine import NameS
+
+            return SStr(name=I.P.fresh("text", NameS))
         raise OutOfSubset("str.replace on symbolic string")
 
     def m_format(I, args, kw):
@@ -185,6 +192,10 @@ def str_method(I, s, name):
             if s.py is None:
                 if s.opaque:
                     return OPAQUE
+                if I.P.ghost.get("abstract_text") and name in ("title", "lower", "upper", "strip"):
+                    from .engine import NameS
+
+                    return SStr(name=I.P.fresh("text", NameS))
                 raise OutOfSubset("str.%s on symbolic string" % name)
             try:
                 return mk(fn(s.py, *[to_py(a) for a in args]))
@@ -532,6 +543,8 @@ def b_list(I, a, k):
         r = h.convert(I, a[0], "list")
         if r is not NotImplemented:
             return r
+    if isinstance(a[0], _I().SProto) and hasattr(a[0], "py_copy") and a[0].pytype() == "list":
+        return a[0].py_copy(I, False)
     return SRef(I.P.alloc(HList(I.iterate(a[0]))))
 
 
@@ -608,6 +621,12 @@ def b_zip(I, a, k):
 
 
 def b_enumerate(I, a, k):
+    if I.P.ghost.get("generic_branch_hook") is not None:
+        from . import loops
+
+        sg = loops.enumerate_gen(I, a[0])
+        if sg is not None:
+            return sg
     items = I.iterate(a[0])
     return SRef(I.P.alloc(HIter([STuple([SNum(i), x]) for i, x in enumerate(items)])))
 
@@ -793,6 +812,10 @@ def b_any(I, a, k):
 def b_sorted(I, a, k):
     if isinstance(a[0], _I().SProto) and getattr(a[0], "opaque_seq", False):
         return a[0]
+    if isinstance(a[0], _I().SProto) and getattr(a[0], "opaque_sorted", False):
+        from .registry import OpaqueSeq
+
+        return OpaqueSeq("sorted units")
     items = I.iterate(a[0])
     # concrete strings / numbers only; symbolic content → the order is abstract
     try:
